@@ -2039,3 +2039,98 @@ def n_int_try_from(ex, callee, a, env):
     else:
         r = v
     return Ok(r)
+
+
+# ----------------------------------------------------------------------------- more Option / Result combinators met in refactorings
+def _truthy(ex, v):
+    """a bool returned by a closure: concrete, or symbolic (forks)"""
+    v = deref(v)
+    if isinstance(v, bool):
+        return v
+    if isinstance(v, int):
+        return v != 0
+    return ex.truth(v if z3.is_bool(v) else v != 0)
+
+
+@native(r'Option::is_some_and$', 'Option::is_some_and')
+def n_is_some_and(ex, callee, a, env):
+    r = deref(a[0])
+    return r.variant == 'Some' and _truthy(ex, ex.call_value(a[1], [r.f[0]]))
+
+
+@native(r'Option::is_none_or$', 'Option::is_none_or')
+def n_is_none_or(ex, callee, a, env):
+    r = deref(a[0])
+    return r.variant == 'None' or _truthy(ex, ex.call_value(a[1], [r.f[0]]))
+
+
+@native(r'Result::is_ok_and$', 'Result::is_ok_and')
+def n_is_ok_and(ex, callee, a, env):
+    r = deref(a[0])
+    return r.variant == 'Ok' and _truthy(ex, ex.call_value(a[1], [r.f[0]]))
+
+
+@native(r'Result::is_err_and$', 'Result::is_err_and')
+def n_is_err_and(ex, callee, a, env):
+    r = deref(a[0])
+    return r.variant == 'Err' and _truthy(ex, ex.call_value(a[1], [r.f[0]]))
+
+
+@native(r'(Option|Result)::map_or$', 'map_or')
+def n_map_or(ex, callee, a, env):
+    r = deref(a[0])
+    return ex.call_value(a[2], [r.f[0]]) if r.variant in ('Some', 'Ok') else a[1]
+
+
+@native(r'(Option|Result)::map_or_else$', 'map_or_else')
+def n_map_or_else(ex, callee, a, env):
+    r = deref(a[0])
+    if r.variant in ('Some', 'Ok'):
+        return ex.call_value(a[2], [r.f[0]])
+    return ex.call_value(a[1], [r.f[0]] if r.ty == 'Result' else [])
+
+
+@native(r'Option::filter$', 'Option::filter')
+def n_opt_filter(ex, callee, a, env):
+    r = deref(a[0])
+    if r.variant == 'Some' and _truthy(ex, ex.call_value(a[1], [Ref([r.f[0]], 0)])):
+        return r
+    return NONE()
+
+
+@native(r'Option::and$', 'Option::and')
+def n_opt_and(ex, callee, a, env):
+    return a[1] if deref(a[0]).variant == 'Some' else NONE()
+
+
+@native(r'Option::xor$', 'Option::xor')
+def n_opt_xor(ex, callee, a, env):
+    x, y = deref(a[0]), deref(a[1])
+    if (x.variant == 'Some') != (y.variant == 'Some'):
+        return x if x.variant == 'Some' else y
+    return NONE()
+
+
+@native(r'Option::zip$', 'Option::zip')
+def n_opt_zip(ex, callee, a, env):
+    x, y = deref(a[0]), deref(a[1])
+    return Some(Tup([x.f[0], y.f[0]])) if x.variant == 'Some' and y.variant == 'Some' else NONE()
+
+
+@native(r'Option::(inspect)$|Result::(inspect|inspect_err)$', 'inspect')
+def n_inspect(ex, callee, a, env):
+    r = deref(a[0])
+    want = 'Err' if callee.endswith('inspect_err') else ('Some' if r.ty == 'Option' else 'Ok')
+    if r.variant == want:
+        ex.call_value(a[1], [Ref([r.f[0]], 0)])
+    return a[0]
+
+
+@native(r'^bool::then_some$|<impl bool>::then_some$', 'bool::then_some')
+def n_then_some(ex, callee, a, env):
+    return Some(a[1]) if _truthy(ex, a[0]) else NONE()
+
+
+@native(r'^bool::then$|<impl bool>::then$', 'bool::then')
+def n_then(ex, callee, a, env):
+    return Some(ex.call_value(a[1], [])) if _truthy(ex, a[0]) else NONE()
